@@ -824,3 +824,148 @@ Definition c08_spec (c : c06case) : bool :=
       end
   end.
 Definition check_c08 := check_cases c06_agree c08_spec.
+
+(* ========================================================================= *)
+(* C07: the SP side needed for the round trip (a small acceptance function
+   following ServiceProvider.parseResponse / validateAssertion on the abstract
+   response record; the coordinator's SPModel.v is the full SP model), the SP's
+   published metadata, and the byte-level transport of every session string    *)
+Record spcfg := {
+  sp_entity : string;            (* firstSet(sp.EntityID, sp.MetadataURL) *)
+  sp_acs : string;               (* sp.AcsURL *)
+  sp_key : option Z;             (* Some k: sp.Certificate is set (key pair k) — advertised for encryption *)
+  sp_signs : bool;               (* sp.SignatureMethod != "" *)
+  sp_idp_entity : string;        (* sp.IDPMetadata.EntityID *)
+  sp_idp_key : Z;                (* the signing key published in the IdP metadata *)
+  sp_allow_initiated : bool
+}.
+
+Definition sig_valid {A} (eq : A -> A -> bool) (key : Z) (sg : sigrec A) (content : A) (id : string) : bool :=
+  (sg_signer sg =? key) && seqb (sg_ref sg) ("#" +++ id) && eq (sg_over sg) content
+  && mem_str (sg_method sg) rsa_methods.
+
+(* validateAssertion *)
+Definition sp_validate_assertion (sp : spcfg) (delay skew now : Z) (ids : list string) (a : assertion) : outcome assertion :=
+  if a_issue_instant a + delay <? now then Err 11 else
+  if negb (seqb (a_issuer a) (sp_idp_entity sp)) then Err 12 else
+  if negb (sp_allow_initiated sp || mem_str (a_conf_in_response_to a) ids) then Err 13 else
+  if negb (seqb (a_conf_recipient a) (sp_acs sp)) then Err 14 else
+  if a_conf_noa a + skew <? now then Err 15 else
+  if now <? a_not_before a - skew then Err 16 else
+  if a_noa a + skew <? now then Err 17 else
+  if negb (match a_audiences a with [] => true | l => mem_str (sp_entity sp) l end) then Err 18 else
+  Ok a.
+
+(* parseResponse for a response that carries a Response-level signature *)
+Definition sp_accept (sp : spcfg) (delay skew now : Z) (ids : list string) (resp : response) : outcome assertion :=
+  let b := rs_body resp in
+  let sig_ok := sig_valid respbody_eqb (sp_idp_key sp) (rs_sig resp) b (rs_id b) in
+  if negb (seqb (rs_destination b) (sp_acs sp)) then Err 2 else
+  if negb (sp_allow_initiated sp || mem_str (rs_in_response_to b) ids) then Err 3 else
+  if rs_issue_instant b + delay <? now then Err 4 else
+  if negb (seqb (rs_issuer b) (sp_idp_entity sp)) then Err 5 else
+  if negb (seqb (rs_status b) status_success) then Err 6 else
+  if negb sig_ok then Err 1 else
+  do a <- match rs_assertion b with
+          | APlain a _ => Ok a
+          | AEnc e => match sp_key sp with
+                      | Some k => match sym_decrypt k e with Some (a, _) => Ok a | None => Err 7 end
+                      | None => Err 7
+                      end
+          end;
+  sp_validate_assertion sp delay skew now ids a.
+
+(* ServiceProvider.Metadata() as the IdP sees it after XML serialisation and re-parsing *)
+Definition artifact_binding := "urn:oasis:names:tc:SAML:2.0:bindings:HTTP-Artifact".
+Definition sp_metadata (sp : spcfg) (cert : string) : spmeta :=
+  {| md_entity := sp_entity sp;
+     descriptors := [ {| acs := [ {| ep_binding := post_binding; ep_location := sp_acs sp; ep_index := 1; ep_default := None |};
+                                  {| ep_binding := artifact_binding; ep_location := sp_acs sp; ep_index := 2; ep_default := None |} ];
+                         kds := match sp_key sp with
+                                | Some _ => {| kd_use := "encryption"; kd_certs := [cert] |}
+                                            :: (if sp_signs sp then [ {| kd_use := "signing"; kd_certs := [cert] |} ] else [])
+                                | None => []
+                                end;
+                         attr_services := [] |} ] |}.
+(* MakeAuthenticationRequest: AssertionConsumerServiceURL = sp.AcsURL, no index *)
+Definition sp_request (sp : spcfg) (id : string) (issue : Z) (dest : string) : authnreq :=
+  {| rq_id := id; rq_version := "2.0"; rq_issue := issue; rq_destination := dest;
+     rq_issuer := Some (sp_entity sp); rq_acs_url := sp_acs sp; rq_acs_index := "" |}.
+
+(* ---------- C07: byte-level transport of the session strings ---------- *)
+From Saml Require Import XmlText.
+
+(* one serialise -> parse hop with the canonical write settings (all three hops
+   of the pipeline use them since fix F14; a second hop changes nothing more) *)
+Definition tr_text (s : string) : option string := xml_read_text (etree_escape EscCanonText s).
+Definition tr_attr (s : string) : option string := xml_read_attr (etree_escape EscCanonAttr s).
+
+Fixpoint tr_list {A} (f : A -> option A) (l : list A) : option (list A) :=
+  match l with
+  | [] => Some []
+  | x :: r => match f x, tr_list f r with Some y, Some r' => Some (y :: r') | _, _ => None end
+  end.
+Definition tr_value (v : attrvalue) : option attrvalue :=
+  match tr_attr (av_type v), tr_text (av_value v) with
+  | Some t, Some x => Some {| av_type := t; av_value := x |}
+  | _, _ => None
+  end.
+Definition tr_attribute (a : attribute) : option attribute :=
+  match tr_attr (at_friendly a), tr_attr (at_name a), tr_attr (at_format a), tr_list tr_value (at_values a) with
+  | Some f, Some n, Some fm, Some vs => Some {| at_friendly := f; at_name := n; at_format := fm; at_values := vs |}
+  | _, _, _, _ => None
+  end.
+
+Definition empty_svc : attrsvc := {| as_default := None; as_requested := [] |}.
+
+(* what the SP returns for a session: None = the response is refused (some
+   string does not survive as XML), Some (NameID, attributes) otherwise *)
+Definition c07_expect (s : session) : option (string * list attribute) :=
+  match tr_attr (ss_index s), tr_attr (ss_nameid_format s), tr_text (ss_nameid s),
+        tr_list tr_attribute (session_attributes empty_svc s) with
+  | Some _, Some _, Some n, Some l => Some (n, l)
+  | _, _, _, _ => None
+  end.
+
+Definition attr_pos_ok (s : string) : bool := valid_xml_chars s && negb (has_cdata_end s).
+Definition value_clean (v : attrvalue) : bool := attr_pos_ok (av_type v) && valid_xml_chars (av_value v).
+Definition attribute_clean (a : attribute) : bool :=
+  attr_pos_ok (at_friendly a) && attr_pos_ok (at_name a) && attr_pos_ok (at_format a)
+  && forallb value_clean (at_values a).
+(* every session string consists of XML characters, and those that travel as XML
+   attribute values (session index, NameID format, attribute names / friendly
+   names / name formats / value types) do not contain "]]>" *)
+Definition session_clean (s : session) : bool :=
+  attr_pos_ok (ss_index s) && attr_pos_ok (ss_nameid_format s) && valid_xml_chars (ss_nameid s)
+  && forallb attribute_clean (session_attributes empty_svc s).
+
+(* pipeline case: the session given to the IdP, what the SP returned *)
+Record c07case := { c7_sess : session; c7_accepted : bool; c7_nameid : string; c7_attrs : list attribute }.
+Definition c07_agree (c : c07case) : bool :=
+  match c07_expect (c7_sess c) with
+  | None => negb (c7_accepted c)
+  | Some (n, l) => c7_accepted c && seqb n (c7_nameid c) && list_eqb attribute_eqb l (c7_attrs c)
+  end.
+Definition c07_spec (c : c07case) : bool :=
+  if session_clean (c7_sess c)
+  then c7_accepted c && seqb (c7_nameid c) (ss_nameid (c7_sess c))
+       && list_eqb attribute_eqb (c7_attrs c) (session_attributes empty_svc (c7_sess c))
+  else true.
+Definition check_c07 := check_cases c07_agree c07_spec.
+
+(* registration case: the SP's published metadata (serialised, re-parsed, as
+   handed to the IdP), the request the SP built, and what the SP is configured with *)
+Record c07rcase := { c7r_md : spmeta; c7r_certs : list (string * certres); c7r_rq : authnreq;
+                     c7r_acs : string; c7r_key : option Z }.
+Definition c07r_spec (c : c07rcase) : bool :=
+  match get_acs_endpoint (c7r_md c) (c7r_rq c) with
+  | Some (_, _, d, e) =>
+      seqb (ep_location e) (c7r_acs c) && seqb (ep_binding e) post_binding
+      && match enc_decision (cp_of_list (c7r_certs c)) (kds d), c7r_key c with
+         | EncryptTo id, Some k => id =? k
+         | Plain, None => true
+         | _, _ => false
+         end
+  | None => false
+  end.
+Definition check_c07r := check_cases (fun _ : c07rcase => true) c07r_spec.
